@@ -1,4 +1,4 @@
 From Coq Require Import Extraction ExtrOcamlBasic.
 From OV Require Import Common.Base C02.Model.
 Extraction Language OCaml.
-Extraction "C02_model.ml" step init_state new_pool new_sess holds Repaired Defective.
+Extraction "C02_model.ml" step init_state new_pool new_sess holds Repaired Defective v6bound.
